@@ -81,6 +81,8 @@ GFA2 = {
     "ob": ("O\tos\tC+", ["e6", "oa"]),
     "x1": ("X\ta\tb\txx:i:1", []),
     "x2": ("Y\tf1\tf2\txx:i:1\tyy:Z:a\tzz:f:0.5", []),       # custom record with several tags: their order is part of the text
+    "x3": ("Y\tf1\tzz:B:C,256\txx:i:1", []),                # a field shaped like a tag that cannot be one (value out of range): a positional field, at every level
+    "x4": ("Y\tab:i:1\tab:i:2", []),                        # the same tag name twice: the first one is a positional field
     "t2": ("S\tW\t8\t*\tLN:i:5\txx:i:1", []),                # a tag named like the GFA1 length tag (an alias of slen in gfapy)
     "h1": ("H\tVN:Z:2.0", []),
     "h2": ("H\txx:i:1", []),
